@@ -25,6 +25,7 @@ import NanoVerif.Model.GlueSvg
 import NanoVerif.Model.GradientParse
 import NanoVerif.Model.VarModel
 import NanoVerif.Model.ConfigValidate
+import NanoVerif.Model.ColrColor
 /-
 Correspondence driver.  One JSON object per input line: {"op": ..., ...}; one JSON object per
 output line.  Run: `lake env lean --run Driver.lean < ops.jsonl`.
@@ -489,6 +490,20 @@ def dispatch (op : String) (j : Json) : Except String Json := do
       | .ok (some i) => return obj [("r", Json.str (toString i))]
       | .ok none => return obj [("r", Json.str "none")]
       | .error _ => return obj [("r", Json.str "err")]
+  | "colr-color" =>
+      let pal ← (← getArr (← field j "palette")).mapM (fun e => do
+        match (← getNats e) with
+        | [r, g, b, a] => pure (r, g, b, a)
+        | _ => throw "rgba")
+      let n ← getNat (← field j "palettes")
+      let idx ← getNat (← field j "idx")
+      let alpha ← getQ (← field j "alpha")
+      match ColrColor.colorOf pal n idx alpha with
+      | .error _ => return obj [("r", Json.str "IndexError")]
+      | .ok c =>
+        if c.slot == some ColrColor.FOREGROUND then return obj [("r", Json.str "current"), ("alpha", jQ c.alpha)]
+        else return obj [("r", Json.arr #[jI c.r, jI c.g, jI c.b]), ("alpha", jQ c.alpha),
+                         ("slot", match c.slot with | some s => jI s | none => Json.null)]
   | "validate-config" =>
       let names ← getStrs (← field j "names")
       let vals ← getInts (← field j "vals")
